@@ -35,7 +35,7 @@ REACHABLE_RAISES = {
 }
 
 
-LATER_RULES = " Later rules: (R4.i) keyless orderings of tuples that can hold None; (R4.j) operations on other modules for import tracing sit in handlers; (R4.k) constant-index access to regex match lists; (R4.l) contradiction rule for snippet parses; (R4.m) validity oracles are total (SyntaxError, ValueError, RecursionError, MemoryError); (R4.n) program text handed to sympy's parser is fenced for Exception; (R4.o) loosely annotated options are normalised before set algebra; (R4.p) = C17 R17.9; (R4.q) constant-index access to possibly-empty list fields is justified by path facts, the selecting template (sa/shapes.py) or the grammar, three-valued; (R4.r) contradiction rule for computed indexes; (R4.s) operator fields of constructed nodes have the right category; (R4.t) unbound set methods are not applied to frozensets."
+LATER_RULES = " Later rules: (R4.i) keyless orderings of tuples that can hold None; (R4.j) operations on other modules for import tracing sit in handlers; (R4.k) constant-index access to regex match lists; (R4.l) contradiction rule for snippet parses; (R4.m) validity oracles are total (SyntaxError, ValueError, RecursionError, MemoryError); (R4.n) program text handed to sympy's parser is fenced for Exception; (R4.o) loosely annotated options are normalised before set algebra; (R4.p) = C17 R17.9; (R4.q) constant-index access to possibly-empty list fields is justified by path facts, the selecting template (sa/shapes.py) or the grammar, three-valued; (R4.r) contradiction rule for computed indexes; (R4.s) operator fields of constructed nodes have the right category; (R4.t) unbound set methods are not applied to frozensets; (R4.u) no call on the tracing path executes code of the analysed project (find_spec of dotted names, import_module outside the standard library)."
 
 
 def check(prog: Program, tier: str) -> Result:
@@ -76,6 +76,7 @@ def check(prog: Program, tier: str) -> Result:
     _r4_h(prog, res)
     _r4_i(prog, res)
     _r4_j(prog, res)
+    _r4_u(prog, res)
     _r4_k(prog, res)
     _r4_l(prog, res)
     _r4_m(prog, res)
@@ -91,7 +92,7 @@ def check(prog: Program, tier: str) -> Result:
     _tmp = Result("C17", "", "")
     _c17._r17_9(prog, _tmp)
     res.adopt(_tmp, {"R17.9"}, "R4.p", "an unpinned constant can be a str or None: the operation raises TypeError out of the rule and out of format_code")
-    res.floors.update({"R4.t": 1, "R4.s": 20, "R4.r": 1, "R4.q": 30, "R4.p": 3, "R4.o": 2, "R4.n": 2, "R4.m": 2, "R4.a": 25, "R4.b": 200, "R4.c": 4, "R4.d": 18, "R4.e": 8, "R4.f": 40, "R4.h": 2, "R4.i": 2, "R4.j": 5, "R4.k": 1})
+    res.floors.update({"R4.u": 2, "R4.t": 1, "R4.s": 20, "R4.r": 1, "R4.q": 30, "R4.p": 3, "R4.o": 2, "R4.n": 2, "R4.m": 2, "R4.a": 25, "R4.b": 200, "R4.c": 4, "R4.d": 18, "R4.e": 8, "R4.f": 40, "R4.h": 2, "R4.i": 2, "R4.j": 5, "R4.k": 1})
     return res
 
 
@@ -567,6 +568,12 @@ def _r4_j(prog: Program, res: Result) -> None:
         # (1) table calls
         for c in prog.calls_in(f):
             d = prog.dotted(c.func) or ""
+            if d not in FOREIGN_RAISES:
+                # a repository helper that asks the finders of the import system (`<finder>.find_spec(..)`) raises what they raise
+                r_ = prog.resolve_call(c.func, f.mod, f)
+                if r_ and r_[0] == "fn" and r_[1].key != f.key and any(isinstance(x, ast.Call) and isinstance(x.func, ast.Attribute) and x.func.attr == "find_spec"
+                                                                    for x in ast.walk(r_[1].node)):
+                    d = "importlib.util.find_spec"
             if d in FOREIGN_RAISES:
                 n += 1
                 missing = [e for e in FOREIGN_RAISES[d] if _caught(c, f, e) is None]
@@ -1541,6 +1548,51 @@ def _r4_g(prog: Program, res: Result) -> None:
     res.ok("R4.g", "pyrefact/", "package", "escape triage", f"{listed} explicit raise/assert statements are not caught locally (advisory list: feasibility of a raise is not a static fact)", trivial=True)
 
 
+# ------------------------------------------------------------------------------------------------ R4.u
+EXECUTING_CALLS = {       # callee -> what it runs (library documentation)
+    "importlib.import_module": "imports the module: runs its code and that of its parent packages",
+    "__import__": "imports the module: runs its code and that of its parent packages",
+    "importlib.util.find_spec": "for a dotted name imports the PARENT packages to find their __path__",
+    "runpy.run_module": "runs the module", "runpy.run_path": "runs the file", "exec": "runs the text", "eval": "runs the text",
+}
+
+
+def _r4_u(prog: Program, res: Result) -> None:
+    """Formatting a module must not RUN the project it belongs to: an `__init__.py` / `__main__.py` with top-level code
+    (`sys.exit()`, argument parsing, a server start) would end or hang the formatter - SystemExit is no Exception and
+    passes every handler - and leave the package in sys.modules for all later calls.  In the tracing module every call of
+    the table EXECUTING_CALLS whose argument comes from the analysed program is reached only when that argument is known
+    to name a module of the standard library (membership in the stdlib table, or an origin `frozen` / `built-in`); there
+    is no exemption for `find_spec`, which imports the parents of a dotted name."""
+    from ..pathcond import PathAnalysis, plain
+    n = 0
+    for f in prog.funcs.values():
+        if f.mod.name != "tracing":
+            continue
+        pa = None
+        for c in prog.calls_in(f):
+            d = prog.dotted(c.func) or (c.func.id if isinstance(c.func, ast.Name) else "")
+            if d not in EXECUTING_CALLS or not c.args:
+                continue
+            n += 1
+            pa = pa or PathAnalysis(prog, f)
+            worlds = pa.worlds_at(c)
+            arg = norm(c.args[0])
+            def stdlib_fact(fct) -> bool:
+                if fct[0] != "lit" or not fct[2]:
+                    return False
+                t = plain(fct[1])
+                return (t.startswith(f"in({arg},") and "STDLIB" in t.upper()) or (t.startswith("in(") and "'frozen'" in t.replace('"', "'") and "'built-in'" in t.replace('"', "'"))
+            ok = bool(worlds) and all(any(stdlib_fact(fct) for fct in w.facts) for w in worlds)
+            res.decide(ok, "R4.u", f.loc(c), f.fq, f"{d}(..): {short(c, 60)}",
+                       "reached only for modules of the standard library" if ok else
+                       f"{d}() {EXECUTING_CALLS[d]}; the name comes from the analysed program, so code of the analysed project runs inside the formatter "
+                       "(`from unittest.__main__.a import b` ends the process with SystemExit, a package `__init__` with side effects is executed and pinned in sys.modules)")
+    if n == 0:
+        res.ok("R4.u", "pyrefact/tracing.py:0", "tracing", "calls that execute other modules", "none", trivial=True)
+
+
+
 # ------------------------------------------------------------------------------------------------ R4.f
 _WC = re.compile(r"\{\{(\w+)[?*+]?\}\}")
 _CALL_SLOT = re.compile(r"\{\{(\w+)\(((?:\w+,?\s*)+)\)\}\}")
@@ -1709,6 +1761,8 @@ class ValidPA(PathAnalysis):
 from ..selftest import Variant  # noqa: E402
 
 VARIANTS = [
+    Variant("modules-located-by-importing-their-parents", "FIRE", "tracing", "                module_spec = _find_spec_without_importing(module)\n", "                module_spec = importlib.util.find_spec(module)\n", "R4.u"),
+    Variant("any-module-imported-to-list-its-exports", "FIRE", "tracing", "                if node.module in constants.PYTHON_311_STDLIB:\n                    # Logic copied", "                if node.module:\n                    # Logic copied", "R4.u"),
     Variant("definition-name-searched-in-normalised-form-only", "FIRE", "fixes", "    raise RuntimeError(f\"No definition of {node.name} in code block:\\n{codeblock}\")\n", "    raise RuntimeError(f\"Cannot find {node.name} in code block:\\n{codeblock}\")\n", "R4.g"),
     Variant("recursion-without-progress-test-after-a-refusable-edit", "FIRE", "fixes",
             "            if new_source == source:\n                continue  # The change was refused\n\n            return move_before_loop(new_source)", "            return move_before_loop(new_source)", "R4.c"),
@@ -1757,7 +1811,7 @@ VARIANTS = [
     Variant("first-line-of-an-empty-match", "FIRE", "pattern_matching",
             "{(match.string.splitlines() or [''])[0]}", "{match.string.splitlines()[0]}", "R4.k"),
     Variant("find-spec-handles-import-error-only", "FIRE", "tracing",
-            "            except (ImportError, ValueError):  # ValueError: e.g. __main__.__spec__ is None", "            except ImportError:", "R4.j"),
+            "            except (ImportError, ValueError):  # ValueError: e.g. an empty module name", "            except ImportError:", "R4.j"),
     Variant("foreign-module-parsed-outside-handler", "FIRE", "tracing",
             "        try:\n            with origin.open(\"r\", encoding=\"utf-8\") as stream:\n                module_source = stream.read()\n\n            module_root = core.parse(module_source)\n        except (OSError, UnicodeDecodeError, SyntaxError):\n            continue  # The other module cannot be read, or is not valid python\n",
             "        try:\n            with origin.open(\"r\", encoding=\"utf-8\") as stream:\n                module_source = stream.read()\n        except (OSError, UnicodeDecodeError):\n            continue\n\n        module_root = core.parse(module_source)\n", "R4.j"),
